@@ -334,7 +334,8 @@ class Resolver:
                 return [(obj, ())]
             if finfo is not None and canon is None:
                 out = []
-                for n in walk_no_nested(finfo.node):
+                consts = {k: v for k, v in bindings.items() if not isinstance(v, tuple)}
+                for n in live_nodes(finfo.node, consts):
                     if isinstance(n, ast.Assign) and any(isinstance(t, ast.Name) and t.id == expr.id for t in n.targets):
                         out.extend(self.callable_values(n.value, finfo, bindings, depth + 1))
                 return out
